@@ -110,16 +110,19 @@ pub fn run(ws: &Ws, prop: &str, opts: &Opts) -> Result<i32, String> {
             .args(["--out", scratch.to_str().unwrap()])
             .stdin(Stdio::null())
             .stdout(Stdio::null())
-            .stderr(Stdio::piped())
+            // to a file, not a pipe: nobody reads a pipe while the workers run
+            .stderr(std::fs::File::create(scratch.join(format!("stderr-{i}.log"))).map(Stdio::from).unwrap_or_else(|_| Stdio::null()))
             .spawn()
             .map_err(|e| format!("cannot start codecsim: {e}"))?;
         children.push((i, child));
     }
     let mut crashed: Vec<(usize, String)> = Vec::new();
     for (i, child) in children {
-        let out = child.wait_with_output().map_err(|e| e.to_string())?;
-        if !out.status.success() {
-            crashed.push((i, format!("{:?}: {}", out.status, String::from_utf8_lossy(&out.stderr))));
+        let mut child = child;
+        let status = child.wait().map_err(|e| e.to_string())?;
+        if !status.success() {
+            let err = std::fs::read(scratch.join(format!("stderr-{i}.log"))).unwrap_or_default();
+            crashed.push((i, format!("{:?}: {}", status, String::from_utf8_lossy(&err).chars().take(2000).collect::<String>())));
         }
     }
 
@@ -138,7 +141,7 @@ pub fn run(ws: &Ws, prop: &str, opts: &Opts) -> Result<i32, String> {
         if let Ok(b) = std::fs::read(&p) {
             let s: Value = serde_json::from_slice(&b).map_err(|e| e.to_string())?;
             let mut nums = json!({});
-            for k in ["numbers", "cases", "ops", "failed_ops", "reservation_writes", "alloc_faults_delivered", "grows", "finite_done", "random_cases", "real_ok", "real_err", "violations"] {
+            for k in ["numbers", "cases", "ops", "failed_ops", "reservation_writes", "alloc_faults_delivered", "aborted_on_injected_allocation_failure", "grows", "finite_done", "random_cases", "real_ok", "real_err", "violations"] {
                 nums[k] = s[k].clone();
             }
             merge_counts(&mut totals, &nums);
@@ -192,6 +195,13 @@ pub fn run(ws: &Ws, prop: &str, opts: &Opts) -> Result<i32, String> {
         let mut v: Vec<PathBuf> = rd.filter_map(|e| e.ok()).map(|e| e.path()).filter(|p| p.file_name().unwrap().to_string_lossy().starts_with("viol-")).collect();
         v.sort();
         case_files.extend(v);
+    }
+    if std::env::var_os("VERIF_DEBUG").is_some() {
+        eprintln!("debug: crashed workers {:?}", crashed.iter().map(|(i, w)| (i, w.chars().take(200).collect::<String>())).collect::<Vec<_>>());
+        eprintln!("debug: case files {:?}", case_files);
+        for f in &case_files {
+            eprintln!("debug: {} => {}", f.display(), String::from_utf8_lossy(&std::fs::read(f).unwrap_or_default()).lines().filter(|l| l.contains("\"class\"") || l.contains("\"detail\"") || l.contains("alloc_fail") || l.contains("\"ty\"")).collect::<Vec<_>>().join(" ").chars().take(600).collect::<String>());
+        }
     }
     // one representative per (class, subject)
     let mut seen = std::collections::BTreeSet::new();
@@ -259,7 +269,7 @@ pub fn run(ws: &Ws, prop: &str, opts: &Opts) -> Result<i32, String> {
         "operations_executed": totals["ops"],
         "operations_refused": totals["failed_ops"],
         "reservation_writes": totals["reservation_writes"],
-        "faults_fired": {"allocation_failure_delivered": totals["alloc_faults_delivered"], "channel_faults_by_kind": by_fault, "reference_verdict_by_class": by_ref_class},
+        "faults_fired": {"allocation_failure_delivered": totals["alloc_faults_delivered"], "aborted_on_injected_allocation_failure_not_judged": totals["aborted_on_injected_allocation_failure"], "channel_faults_by_kind": by_fault, "reference_verdict_by_class": by_ref_class},
         "by_type": by_type,
         "by_target": by_target,
         "decoder_accepted": totals["real_ok"],
